@@ -292,20 +292,31 @@ class CFG:
     def stmt_nodes(self) -> List[Node]:
         return [n for n in self.nodes if n.kind in ('stmt', 'test', 'for') and n.ast is not None and self.is_reachable(n)]
 
-    def between(self, a: Node, b: Node) -> Set[int]:
-        """ids of nodes lying on some path from a to b that does not pass through a again (a, b excluded)"""
-        fwd = self._reachable_from(a, avoid={a.id})
+    def between(self, a: Node, b: Node, avoid: Optional[Set[int]] = None) -> Set[int]:
+        """ids of nodes lying on some path from a to b that does not pass through a again nor through `avoid` (a, b excluded)"""
+        av = {a.id} | set(avoid or ())
+        fwd = self._reachable_from(a, avoid=av)
         # nodes that can reach b without passing a
         back = set()
         todo = [b]
         while todo:
             n = todo.pop()
             for p in n.pred:
-                if p.id == a.id or p.id in back:
+                if p.id in av or p.id in back:
                     continue
                 back.add(p.id)
                 todo.append(p)
         return (fwd & back) - {a.id, b.id}
+
+    def loop_entry_branch(self, loop_stmt) -> Optional[Node]:
+        """the branch node through which the body of a while / for statement is entered"""
+        hdr = self.node_of(loop_stmt)
+        if hdr is None:
+            return None
+        for s in hdr.succ:
+            if s.kind == 'branch' and s.polarity:
+                return s
+        return None
 
 
 def _walk_expr(node):
